@@ -418,6 +418,7 @@ def splice_fn(src, item, ann):
         if b1 < 0 or b2 < 0:
             raise ExtractError('bad closure needle %r' % needle)
         expr = needle[b2 + 1:].strip()
+        header_only = (expr == '')
         rep = '|%s| -> (%s)\n%s\n{ %s }' % (params, ret, ctext.rstrip(), expr)
         # nth == 0: every occurrence (at least one); otherwise the nth one
         found, st0 = [], 0
@@ -426,15 +427,23 @@ def splice_fn(src, item, ann):
             if pos < 0: break
             found.append(pos)
             st0 = pos + 1
+        def one(pos):
+            if not header_only:
+                repls.append((pos, pos + len(needle), rep)); return
+            # needle is the closure header only: the body is the block that follows (kept verbatim)
+            j = pos + len(needle)
+            while j < len(body) and body[j] in ' \t\r\n': j += 1
+            if j >= len(body) or body[j] != '{':
+                raise ExtractError('lost anchor: %s::%s: closure %r is not followed by a block' % (src.rel, item.name, needle))
+            repls.append((pos, j, '|%s| -> (%s)\n%s\n' % (params, ret, ctext.rstrip())))
         if nth == 0:
             if not found:
                 raise ExtractError('lost anchor: %s::%s: closure %r not found' % (src.rel, item.name, needle))
-            for pos in found: repls.append((pos, pos + len(needle), rep))
+            for pos in found: one(pos)
         else:
             if len(found) < nth:
                 raise ExtractError('lost anchor: %s::%s: closure %r #%d not found' % (src.rel, item.name, needle, nth))
-            pos = found[nth - 1]
-            repls.append((pos, pos + len(needle), rep))
+            one(found[nth - 1])
     allx = [(o, o, t) for (o, t) in edits] + repls
     for a, b, text in sorted(allx, key=lambda e: (-e[0], -e[1])):
         body = body[:a] + text + body[b:]
